@@ -54,3 +54,17 @@ func callsRecover(fn *ssa.Function) bool {
 	}
 	return false
 }
+
+// isSliced: a local array (var buf [N]T) that is sliced (buf[:0]) serves as the backing array of a
+// slice and therefore lives in the element heap like every other backing array.
+func isSliced(a *ssa.Alloc) bool {
+	if a.Referrers() == nil {
+		return false
+	}
+	for _, r := range *a.Referrers() {
+		if s, ok := r.(*ssa.Slice); ok && s.X == a {
+			return true
+		}
+	}
+	return false
+}
